@@ -133,6 +133,8 @@ def cli(argv=sys.argv, mode='output'):
     elif mode == 'string':
         return G.to_dimacs()
     else:
+        if args.output is None:
+            raise OSError("the standard output is closed")
         G.to_file(args.output, fileformat='dimacs')
         # a full disk must show up here, not at interpreter shutdown
         args.output.flush()
@@ -180,7 +182,8 @@ def main():
         sys.exit(-1)
 
     # avoid signaling BrokenPipeError as whatnot
-    sys.stderr.close()
+    if sys.stderr is not None:
+        sys.stderr.close()
 
 
 if __name__ == '__main__':
